@@ -385,7 +385,7 @@ class HistogramBase(abc.ABC):
 
     @frequencies.setter
     def frequencies(self, values: ArrayLike) -> None:
-        frequencies = np.asarray(values)
+        frequencies = np.array(values)  # Always a private copy (never a view of the caller's data)
         if frequencies.shape != self.shape:
             raise ValueError("Values must have same dimension as bins.")
         if np.any(frequencies < 0):
@@ -439,7 +439,7 @@ class HistogramBase(abc.ABC):
 
     @errors2.setter
     def errors2(self, values: ArrayLike) -> None:
-        array: np.ndarray = np.asarray(values)
+        array: np.ndarray = np.array(values)  # Always a private copy (never a view of the caller's data)
         if array.shape != self.shape:
             raise ValueError("Square errors must have same dimension as bins.")
         if np.any(array < 0):
